@@ -27,10 +27,10 @@ func TestMain(m *testing.M) { vh.Main(m) }
 type verdict struct{ sig, msg string }
 
 type dop struct {
-	Op    string   `json:"op"` // sub, unsub, burst, failcreate, failsend, failrecv, up, yield
-	Names []int    `json:"names,omitempty"`
-	Subs  []bool   `json:"subs,omitempty"` // burst: per name subscribe (true) or unsubscribe
-	N     int      `json:"n,omitempty"`
+	Op    string `json:"op"` // sub, unsub, burst, failcreate, failsend, failrecv, up, yield
+	Names []int  `json:"names,omitempty"`
+	Subs  []bool `json:"subs,omitempty"` // burst: per name subscribe (true) or unsubscribe
+	N     int    `json:"n,omitempty"`
 }
 
 type discCase struct {
@@ -42,17 +42,25 @@ type discCase struct {
 type request struct{ sub, unsub []string }
 
 type stream struct {
-	srv      *server
-	id       int
-	mu       sync.Mutex
-	reqs     []request
-	sendLeft int // fail the Send after this many successful ones (-1: never)
-	broken   bool
-	recvFail chan struct{}
+	srv       *server
+	id        int
+	mu        sync.Mutex
+	reqs      []request
+	sendLeft  int           // fail the Send after this many successful ones (-1: never)
+	snapDelay time.Duration // the first Send (the resubscribe snapshot) takes this long: a slow or flow-controlled peer
+	broken    bool
+	recvFail  chan struct{}
 }
 
 func (s *stream) Send(sub, unsub []string) error {
 	defer s.srv.touch()
+	s.mu.Lock()
+	first := len(s.reqs) == 0 && !s.broken
+	d := s.snapDelay
+	s.mu.Unlock()
+	if first && d > 0 {
+		time.Sleep(d) // the request is on its way; changes made meanwhile are not part of it
+	}
 	s.mu.Lock()
 	defer s.mu.Unlock()
 	if s.broken {
@@ -129,14 +137,15 @@ func (s *stream) fold() (map[string]bool, map[string]bool, int) {
 }
 
 type server struct {
-	ctx         context.Context
-	mu          sync.Mutex
-	failCreate  int  // creations that fail next
-	down        bool // creation fails until brought up
-	nextSendCap int  // sendLeft for the next created stream (-1 never)
-	streams     []*stream
-	lastTouch   time.Time
-	creations   int
+	ctx           context.Context
+	mu            sync.Mutex
+	failCreate    int  // creations that fail next
+	down          bool // creation fails until brought up
+	nextSendCap   int  // sendLeft for the next created stream (-1 never)
+	nextSnapDelay time.Duration
+	streams       []*stream
+	lastTouch     time.Time
+	creations     int
 }
 
 func (srv *server) touch() {
@@ -157,8 +166,9 @@ func (srv *server) maker(ctx context.Context) (config.VerifStream, error) {
 		srv.failCreate--
 		return nil, errors.New("scripted creation failure")
 	}
-	s := &stream{srv: srv, id: len(srv.streams), sendLeft: srv.nextSendCap, recvFail: make(chan struct{})}
+	s := &stream{srv: srv, id: len(srv.streams), sendLeft: srv.nextSendCap, snapDelay: srv.nextSnapDelay, recvFail: make(chan struct{})}
 	srv.nextSendCap = -1
+	srv.nextSnapDelay = 0
 	srv.streams = append(srv.streams, s)
 	return s, nil
 }
@@ -289,6 +299,23 @@ func checkDisc(c discCase) (inf discInfo, v *verdict) {
 		case "failrecv":
 			if s := srv.current(); s != nil {
 				s.breakRecv()
+			}
+		case "slowsnap":
+			// the next stream's resubscribe request takes N x 100 us; break the current stream so a new one is made,
+			// and keep issuing changes while the snapshot is being sent
+			srv.mu.Lock()
+			srv.nextSnapDelay = time.Duration(o.N) * 100 * time.Microsecond
+			srv.down = false
+			srv.failCreate = 0
+			srv.mu.Unlock()
+			if s := srv.current(); s != nil {
+				s.breakRecv()
+			}
+			inf.faultAfterSnap = true
+			t0 := time.Now()
+			for k := 0; time.Since(t0) < time.Duration(o.N)*150*time.Microsecond && k < len(o.Names); k++ {
+				issue(k < len(o.Subs) && o.Subs[k], o.Names[k])
+				time.Sleep(time.Duration(o.N) * 100 * time.Microsecond / time.Duration(len(o.Names)+1))
 			}
 		case "up":
 			srv.mu.Lock()
@@ -453,6 +480,13 @@ func genDisc(t *rapid.T, realRun bool) discCase {
 			c.Ops = append(c.Ops, dop{Op: "failsend", N: rapid.IntRange(0, 3).Draw(t, "fs")})
 		case x == 14:
 			c.Ops = append(c.Ops, dop{Op: "failrecv"})
+		case x == 15 && !realRun:
+			o := dop{Op: "slowsnap", N: rapid.IntRange(5, 40).Draw(t, "snapdelay")}
+			for j, k := 0, rapid.IntRange(2, 10).Draw(t, "during"); j < k; j++ {
+				o.Names = append(o.Names, rapid.IntRange(0, 23).Draw(t, "sn"))
+				o.Subs = append(o.Subs, rapid.Bool().Draw(t, "ss"))
+			}
+			c.Ops = append(c.Ops, o)
 		case x <= 16:
 			c.Ops = append(c.Ops, dop{Op: "up"})
 		default:
